@@ -577,7 +577,7 @@ fn miri_phase_kind(property: &'static str, kind: &'static str, n_scenarios: usiz
   }
   let (n_scn, n_seeds) = match tier {
     Tier::Quick => (if kind == "c14" { 2 } else { 1 }, 3u64),
-    Tier::Thorough => (n_scenarios, 16u64),
+    Tier::Thorough => (n_scenarios, 8u64),
   };
   let lo = (seed % 1_000_000) * 64;
   let scns: Vec<usize> = (0..n_scn).map(|k| ((seed as usize) + k) % n_scenarios).collect();
